@@ -61,7 +61,9 @@ func SpecialEncodings() [][]byte {
 	return special
 }
 
-func le32Big(v *big.Int) []byte { return ref.LE32(new(big.Int).And(v, new(big.Int).Sub(new(big.Int).Lsh(big.NewInt(1), 256), big.NewInt(1)))) }
+func le32Big(v *big.Int) []byte {
+	return ref.LE32(new(big.Int).And(v, new(big.Int).Sub(new(big.Int).Lsh(big.NewInt(1), 256), big.NewInt(1))))
+}
 
 // SBoundaries: the S values named by the property.
 func SBoundaries() []*big.Int {
